@@ -141,6 +141,11 @@ var active *sched
 // Instrumented is set to "yes" (go build -ldflags -X) by the builds that compile the rewritten /repo sources.
 var Instrumented = "no"
 
+// ProbeCount is the number of probes the rewriter could insert (go build -ldflags -X): the protocol monitors of the
+// ow-sim checks read the events of four named functions; when one of them no longer exists under that name the
+// monitors are switched off (and say so) instead of reading a partial event stream.
+var ProbeCount = ""
+
 // Active reports whether a controlled execution is in progress.
 //
 //go:norace
@@ -649,6 +654,27 @@ func (c *Chan[T]) Recv() T {
 	}
 	v, _ := s.recvAnyOf(me).(T)
 	return v
+}
+
+// RecvOk is the two-valued receive (v, ok := <-ch; also one iteration of `for v := range ch`): ok is false once
+// the channel is closed and drained.
+func (c *Chan[T]) RecvOk() (T, bool) {
+	if c.real != nil {
+		v, ok := <-c.real
+		return v, ok
+	}
+	s := active
+	me := s.current()
+	raceRelease(unsafe.Pointer(&me.recvSync))
+	s.point(me, OpRecv, c.o)
+	if p := s.partnerOf(me); p != nil {
+		raceAcquire(unsafe.Pointer(&p.sendSync))
+		v, _ := s.recvAnyOf(me).(T)
+		return v, true
+	}
+	raceAcquire(unsafe.Pointer(&c.o.sync1))
+	var zero T
+	return zero, false
 }
 
 // Close closes the channel: blocked and later receives complete with the zero value once it is drained.
